@@ -509,6 +509,7 @@ func runCrashCase(c *Ctx, dc dbCase, tape *simrt.Tape, plan crashPlan) crashOutc
 		}
 	}
 	nestedBudget := 6
+	compactionNested := 0
 	if plan.thorough {
 		nestedBudget = 40
 	}
@@ -592,10 +593,16 @@ func runCrashCase(c *Ctx, dc dbCase, tape *simrt.Tape, plan crashPlan) crashOutc
 			continue
 		}
 		// nested crashes inside recovery (C10)
-		if plan.mode == "nested" && !cached && nestedBudget > 0 {
+		// images whose recovery has to finish a compaction are rare and always branched; the others share a budget
+		mustNest := strings.Contains(tagStr, "compaction-flagged") && compactionNested < 12
+		if plan.mode == "nested" && !cached && (nestedBudget > 0 || mustNest) {
 			interesting := len(tags) > 0 || m.Size("wal/000000.wal") > 8 || rs.Intn(4) == 0
 			if interesting {
-				nestedBudget--
+				if mustNest {
+					compactionNested++
+				} else {
+					nestedBudget--
+				}
 				vs, n := nestedCrashes(c, m, rec, dc, tags, where, plan.thorough && rs.Intn(4) == 0)
 				out.nested += n
 				out.vs = append(out.vs, vs...)
